@@ -23,6 +23,10 @@ func ParseTimestamp(timestampStr string) (*timestamppb.Timestamp, error) {
 			return nil, err
 		}
 	}
+	// reject values outside 0001-01-01..9999-12-31: they cannot be formatted as RFC3339.
+	if err := ts.CheckValid(); err != nil {
+		return nil, err
+	}
 	return ts, nil
 }
 
